@@ -318,11 +318,32 @@ func TestProp_BuilderWiring(t *testing.T) {
 		spec.WaitTimeout = 20 * time.Second
 		// one case in three through the public entry point (the CLI's flag set feeding the builder)
 		viaCLI := rapid.IntRange(0, 2).Draw(rt, "viaCLI") == 0
-		tDo = time.Now()
+		// ... and of those, one in three as the SECOND command of one F1 instance, with the trigger flags
+		// omitted: the documented defaults (constant: 1 iteration per second) apply, whatever the
+		// command before asked for
+		defaults := viaCLI && shape.Mode == "constant" && rapid.IntRange(0, 2).Draw(rt, "defaultsAfterEarlierCommand") == 0
 		var err error
-		if viaCLI {
+		if defaults {
+			var judging atomic.Bool
+			app := vlib.NewCLIApp(func(st *f1testing.T) f1testing.RunFn {
+				fn := scenario(st)
+				return func(it *f1testing.T) {
+					if judging.Load() {
+						fn(it)
+					}
+				}
+			})
+			_ = app.ExecuteWithArgs([]string{"run", "constant", vlib.ScenarioName, "-v", "--rate", "7/10ms", "--distribution", "none", "--max-duration", "60ms", "--concurrency", "8", "--ignore-dropped"})
+			judging.Store(true)
+			shape.PerTick, shape.TickInterval = 1, time.Second
+			shape.Desc = "constant, trigger flags omitted (defaults: 1/s), after `--rate 7/10ms --distribution none` on the same F1 instance"
+			tDo = time.Now()
+			_ = app.ExecuteWithArgs([]string{"run", "constant", vlib.ScenarioName, "-v", "--max-duration", "1100ms", "--concurrency", "8", "--ignore-dropped"})
+		} else if viaCLI {
+			tDo = time.Now()
 			_, err = vlib.ExecuteCLI(spec)
 		} else {
+			tDo = time.Now()
 			_, err = vlib.Execute(spec)
 		}
 		if err != nil {
@@ -339,6 +360,9 @@ func TestProp_BuilderWiring(t *testing.T) {
 		cls := []string{"mode-" + shape.Mode}
 		if viaCLI {
 			cls = append(cls, "through-the-cli")
+		}
+		if defaults {
+			cls = append(cls, "defaults-after-an-earlier-command")
 		}
 		stats.Case("blackbox", shape.Desc, ticksNeeded >= 3, cls, func() any {
 			return map[string]any{"shape": shape.Desc, "iterations": len(times), "ticks_needed": ticksNeeded}
